@@ -1,4 +1,4 @@
-import CssVerif.Model.Ns
+import CssVerif.Model.NsShare
 /-!
 Driver for C15 (stateful): one sheet; every operation replies with its outcome and the canonical state.
 
@@ -9,6 +9,10 @@ requests
   insnstext <p> <u> <c0c1c2> <idx> <inorder>
   setns <p> <u> | delns <p> | delrule <i> | setprefix <i> <q>
   setsel <i> <ssels> | insstyle <ssels> <idx> <inorder> | insobj <sels> <idx> <inorder>
+  wreset                            two empty sheets, no followed object
+  w <side> <one of the requests above>      side: `0` = sheet A, `1` = sheet B
+  wgrab <side> <i> <ssels> | wshare <side> <idx> <inorder> | wobjsel <ssels>
+                                    reply: `<outcome> A:<state of A> B:<state of B> O=<owner a|b|n>:<index in A|->:<index in B|->`
   resolve <dict> <ssel>             stateless: a detached Selector((text, dict))
   ser <dict> <sel>                  stateless
 
@@ -203,21 +207,80 @@ def parseOp (ws : List String) : Option Op :=
     | _, _, _ => none
   | _ => none
 
-def handle (s : Sheet) (line : String) : Sheet × String :=
+def joinTexts (l : List Cps) : Cps :=
+  match l with
+  | [] => []
+  | h :: t => t.foldl (fun acc x => acc ++ commaSpace ++ x) h
+
+/-- state of one sheet of the world: the followed object writes its selectors with its own dicts -/
+def showStateW (w : World) (side : Bool) : String :=
+  let s := w.sheet side
+  let d := view s
+  let oi := w.objIndex side
+  let rules := if s.isEmpty then "_" else ";".intercalate (s.map showRule)
+  let texts := ((List.range s.length).map fun i => match s[i]? with
+    | some r =>
+      if oi = some i then match w.obj with
+        | some o => [encCps (joinTexts (w.objTexts o))]
+        | none => ruleTexts d r
+      else ruleTexts d r
+    | none => []).flatten
+  let wf := String.join (s.map fun r => match r with
+    | .ns n => if n.wf then "1" else "0"
+    | _ => "")
+  "V=" ++ showDict d ++ " R=" ++ rules ++ " T=" ++ (if texts.isEmpty then "_" else ";".intercalate texts) ++
+    " W=" ++ (if wf.isEmpty then "_" else wf)
+
+def showIdx : Option Nat → String
+  | none => "-"
+  | some i => toString i
+
+def showWorld (w : World) : String :=
+  "A:" ++ showStateW w false ++ " B:" ++ showStateW w true ++ " O=" ++
+    match w.obj with
+    | none => "_"
+    | some o => (match o.owner with
+        | none => "n"
+        | some false => "a"
+        | some true => "b") ++ ":" ++ showIdx (w.objIndex false) ++ ":" ++ showIdx (w.objIndex true)
+
+def emptyWorld : World := { a := [], b := [], obj := none }
+
+def parseWOp (ws : List String) : Option WOp :=
+  match ws with
+  | "w" :: side :: rest => match parseBool side, parseOp rest with
+    | some side, some op => some (.on side op)
+    | _, _ => none
+  | ["wgrab", side, i, sels] => match parseBool side, i.toNat?, parseSSels sels with
+    | some side, some i, some sels => some (.grab side i sels)
+    | _, _, _ => none
+  | ["wshare", side, idx, io] => match parseBool side, parseIdx idx, parseBool io with
+    | some side, some idx, some io => some (.share side idx io)
+    | _, _, _ => none
+  | ["wobjsel", sels] => (parseSSels sels).map .objSel
+  | _ => none
+
+def handle (st : Sheet × World) (line : String) : (Sheet × World) × String :=
+  let s := st.1
   match words line with
-  | ["reset"] => ([], "ok:n " ++ showState [])
+  | ["reset"] => (([], st.2), "ok:n " ++ showState [])
+  | ["wreset"] => ((s, emptyWorld), "ok:n " ++ showWorld emptyWorld)
   | ["resolve", d, sel] => match parseDict d, parseSSel sel with
     | some d, some sel => match resolveSel d sel with
-      | .ok x => (s, "ok " ++ showSel x ++ " " ++ encCps (serSel d x))
-      | .error e => (s, "err:" ++ showErr e)
-    | _, _ => (s, "bad-op")
+      | .ok x => (st, "ok " ++ showSel x ++ " " ++ encCps (serSel d x))
+      | .error e => (st, "err:" ++ showErr e)
+    | _, _ => (st, "bad-op")
   | ["ser", d, sel] => match parseDict d, parseRSel sel with
-    | some d, some sel => (s, "ok " ++ encCps (serSel d sel))
-    | _, _ => (s, "bad-op")
+    | some d, some sel => (st, "ok " ++ encCps (serSel d sel))
+    | _, _ => (st, "bad-op")
   | ws => match parseOp ws with
     | some op =>
       let r := step s op
-      (r.1, showOutcome r.2 ++ " " ++ showState r.1)
-    | none => (s, "bad-op")
+      ((r.1, st.2), showOutcome r.2 ++ " " ++ showState r.1)
+    | none => match parseWOp ws with
+      | some wop =>
+        let r := wstep st.2 wop
+        ((s, r.1), showOutcome r.2 ++ " " ++ showWorld r.1)
+      | none => (st, "bad-op")
 
-def main : IO Unit := serveSt ([] : Sheet) handle
+def main : IO Unit := serveSt (([], emptyWorld) : Sheet × World) handle
